@@ -40,7 +40,9 @@ def check(acc, job):
     fl = [l for l in full.split('\n') if l]
     src_nonnull = [i for i, l in enumerate(lines) if l and not all(c in ('.', '*') for c in l.split('\t'))]
     if len(fl) != len(src_nonnull):
-        return          # C03 decides the full export
+        # the export of the whole score does not even have the source's rows: then no pair can reproduce its fragment either
+        acc.violation(Viol('joined-score', 'export-of-the-whole-score-does-not-have-the-rows-of-its-source', case0, len(src_nonnull), len(fl)))
+        return
     for i, l in zip(src_nonnull, fl):
         norm[i] = l
     for k in range(0, min(len(barpos), 5) + 1):
